@@ -185,7 +185,7 @@ Definition rfa_match_x (tol : Qc) (m : res (list Qc * list Qc)) (ox : list Qc) (
                 cases.append(c)
         # every oversampling factor 2..64 on two short uniform series (unit spacing; 300 s spacing on a decimal offset): how many
         # samples come back must not depend on how the quotient spacing / n happens to round
-        if "C04" in self.aspects:
+        if "C04" in self.aspects or not self.aspects:
             for n in range(2, 65):
                 for xs_ in ([0.0, 1.0, 2.0], [10.0, 10.6, 11.2], [1.7e6, 1.7e6 + 300.0]):
                     s = rng.choice(["linfixed", "expfixed", "linadapt", "expadapt"])
@@ -193,6 +193,20 @@ Definition rfa_match_x (tol : Qc) (m : res (list Qc * list Qc)) (ox : list Qc) (
                     c["x"] = list(xs_)
                     c["y"] = [float(rng.randint(-8, 8)) for _ in xs_]
                     cases.append(c)
+        # abscissae that are *almost* uniform (interior points off the regular grid by 2^-20..2^-18 of the step) and abscissae on a
+        # tiny scale (multiples of 2^-30, clearly non-uniform): "evenly spaced" shortcuts that test the spacing with a tolerance
+        # (np.allclose: rtol 1e-5, atol 1e-8) take both for uniform. Every strategy, every run.
+        for s in STRATS:
+            for step in (1.0, 300.0):
+                m_ = rng.choice([3, 4, 5])
+                c = self.mk(rng, s, m=m_, n=rng.choice([2, 4, 8]))
+                c["x"] = [5.0 + i * step + (step * rng.choice([-4, -2, -1, 1, 2, 4]) * 2.0 ** -20 if 0 < i < m_ - 1 else 0.0) for i in range(m_)]
+                c["y"] = gens.values(rng, m_)
+                cases.append(c)
+            c = self.mk(rng, s, m=5, n=rng.choice([2, 4, 8]))
+            c["x"] = [k * 2.0 ** -30 for k in (0, 1, 3, 4, 8)]
+            c["y"] = gens.values(rng, 5)
+            cases.append(c)
         # n < 2 rejections
         for s in STRATS:
             for n in (1, 0, -1, 1.5):
@@ -614,6 +628,24 @@ class RfaMetaUnit(Unit):
                         c["y2"][-1] = c["y2"][0] + 3.0
                     c["k"] = rng.choice([0, len(c["y"]) - 1, c["k"]])
                 cases.append(c)
+        # every oversampling factor 2..64 under a change of the time unit (seconds -> minutes, seconds -> hours, index -> seconds):
+        # "all n" — whether a recreation in one unit has the shape of the recreation in another must not depend on how
+        # spacing / n happens to round
+        xs_all = ([0.0, 300.0, 600.0, 900.0], [0.0, 60.0, 120.0], [0.0, 1.0, 2.0, 3.0])
+        for n in range(2, 65):
+            xs_ = xs_all[n % 3]
+            s = ("linfixed", "expfixed", "pc", "linadapt", "expadapt")[n % 5]
+            c = base.mk(rng, s, m=len(xs_), n=n, a=None, alpha=rng.choice([1.0, 0.5]))
+            c["x"] = list(xs_)
+            c["y"] = [float(rng.randint(-8, 8)) for _ in xs_]
+            c["ya"], c["yb"] = 2.0, 1.0
+            c["xc"], c["xd"] = (0.5, 0.0) if s in ("linadapt", "expadapt") else (rng.choice([1.0 / 60.0, 60.0, 1.0 / 3600.0]), 0.0)
+            if s in ("linadapt", "expadapt") and not adaptive_windows_exact(c)[2]:
+                continue
+            c["k"] = rng.randrange(len(c["y"]))
+            c["delta"] = 1.0
+            c["y2"] = gens.values(rng, len(c["y"]), "int")
+            cases.append(c)
         return cases
 
     def call(self, c, x, y):
@@ -657,6 +689,11 @@ class RfaMetaUnit(Unit):
             return F
         ys = np.array(o["ys"])
         xs = np.array(o["xs"])
+        # the relations below compare runs sample by sample: first of all the runs must have the same shape
+        shapes = {k: len(o[k]) for k in ("xs", "ys", "ys_yaff", "xs_xaff", "ys_xaff", "ys_local", "ys_2", "ys_sum") if k in o}
+        if len(set(shapes.values())) != 1:
+            fail("shape", "recreations of the same series under a change of units / of one value have different lengths: %s" % shapes)
+            return F
         sc = 1 + np.max(np.abs(ys))
         exact = s in ("linadapt", "expadapt")
         t = 1e-9
@@ -666,7 +703,13 @@ class RfaMetaUnit(Unit):
         e2 = c["xc"] * xs + c["xd"]
         if np.max(np.abs(np.array(o["xs_xaff"]) - e2)) > t * (1 + np.max(np.abs(e2))):
             fail("x-affine", "abscissae of recreate(c*x+d) differ from c*xs+d")
-        if np.max(np.abs(np.array(o["ys_xaff"]) - ys)) > t * sc:
+        # conditioning of the comparison itself: c*x+d is rounded to the float grid at |c*x+d|; relative to the spacing of the samples
+        # that is a perturbation of the *input* of the second run (epoch abscissae times 0.3: 6e-8 on a spacing of 0.3), and the
+        # values respond to it in proportion to their range
+        xa = np.array(c["x"], dtype=float)
+        xb = c["xc"] * xa + c["xd"]
+        cond = max(np.spacing(np.max(np.abs(v))) / np.min(np.diff(v)) for v in (xa, xb))
+        if np.max(np.abs(np.array(o["ys_xaff"]) - ys)) > t * sc + 16 * cond * (np.max(ys) - np.min(ys) + 1):
             fail("x-affine", "values change under x -> c*x+d by %g" % np.max(np.abs(np.array(o["ys_xaff"]) - ys)))
         if s != "cubic":
             radius = 2 if exact else 1
